@@ -57,3 +57,13 @@ Definition py_truthy (o : option json) : bool :=
 (* dict(secret=.., ident=.., pubchans=.., subchans=.., owner=..): the answer, in the model's representation *)
 Definition mk_authkey (secret pub sub owner : json) : cred :=
   mkcred (jatom (Some secret)) (jatom (Some owner)) (jlist (Some pub)) (jlist (Some sub)).
+
+(* ---- memory.py / multi.py: answers are the model's [option cred] ([None] = None or any falsy entry) ---------- *)
+Definition mem_dict_get (creds : list (bytes * option cred)) (i : bytes) : option cred :=     (* self.creds.get(i, None) *)
+  match assocb i creds with Some v => v | None => None end.
+Definition cred_truthy (o : option cred) : bool := match o with Some _ => true | None => false end.
+Definition cred_copy (o : option cred) : option cred := o.                               (* dict(x) *)
+Definition cred_set_ident (o : option cred) (i : bytes) : option cred := o.                 (* x['ident'] = i *)
+(* for m in stack: r = ..; if r: return r   ...  return None *)
+Fixpoint for_first {X R} (l : list X) (body : X -> option R) : option R :=
+  match l with [] => None | x :: t => match body x with Some r => Some r | None => for_first t body end end.
